@@ -36,7 +36,7 @@ RULE = (
     "subsets incl. self-loops, every insertion order of the pairs (plus a repeated insertion), three "
     "construction routes (set_strictly_before / add_constraint(LT) / add_constraint(GT)), reversed "
     "declaration order; every relation with n<=4 x 14 extra constraint kinds x positions "
-    "first/middle/last (thorough: n=5 x 4 kinds appended last); oracle = brute force over all n! permutations; non-trivial = relation "
+    "first/middle/last (thorough: n=5 x 2 kinds appended last); oracle = brute force over all n! permutations; non-trivial = relation "
     "with >= 2 pairs that is cyclic, or has exactly one linear extension, or carries an extra constraint"
 )
 ASSUMPTIONS = [
@@ -51,7 +51,7 @@ EXTRA_KINDS = [
 ]
 
 
-N5_EXTRA = ["delay-lhs", "le", "start-start", "own-end"]  # thorough: n=5, appended last
+N5_EXTRA = ["delay-lhs", "start-start"]  # thorough: n=5, appended last
 
 
 def bounds(tier):
@@ -326,6 +326,13 @@ def run_case(w, brute, case, acc, mv):
         return
     if case.get("extra") or (len(case["pairs"]) >= 2 and cls in ("ext0", "ext1")):
         acc.count("nontrivial")
+    if res and case.get("extra") and case["extra"][0] == "nontemporal":
+        # report only what the non-temporal constraint CHANGES (the plain relation is judged on its own)
+        base = dict(case)
+        del base["extra"]
+        bres, _ = judge(w, brute, base)
+        have = {"nontemporal:" + sub for sub, _ in (bres or [])}
+        res = [(sub, what) for sub, what in res if sub not in have]
     for sub, what in res:
         mv.add(sub, size(case), label(case), what, case)
 
@@ -409,7 +416,8 @@ finalize = minviol.finalize
 
 
 def replay(case):
+    orig = case
     case = {k: v for k, v in case.items() if not k.startswith("_")}
     w = World()
     res, _cls = judge(w, Brute(case["n"]), case)
-    return [("%s|%s" % (sub, label(case)), what) for sub, what in (res or [])]
+    return minviol.filter_replay(orig, [("%s|%s" % (sub, label(case)), what) for sub, what in (res or [])])
